@@ -448,7 +448,7 @@ func run(c *hc.Ctx) error {
 		}
 		return int64(r.Intn(ps*10 + 1))
 	}
-	n := c.N(400, 6000)
+	n := c.N(1200, 8000)
 	for i := 0; i < n; i++ {
 		ps := hc.Pick(r, 1, 2, 3, 7, 16, 64, 100, 1024)
 		size := sizesAround(ps)
@@ -464,7 +464,7 @@ func run(c *hc.Ctx) error {
 		}
 		add("bytes", size, ps, threads, true)
 	}
-	nBig := c.N(30, 300)
+	nBig := c.N(60, 300)
 	for i := 0; i < nBig; i++ {
 		ps := hc.Pick(r, 4096, 65536, 131072, 524288, 1048576)
 		size := sizesAround(ps)
